@@ -34,13 +34,33 @@ def run(tier, seed):
     violations = []
     eps = garbgen.episodes(tier, seed)
     shards = runner.shard(eps, 32)
-    runs = runner.run_all(bdir, wd, shards, garbgen.render, timeout=1800 if tier == "quick" else 7200)
+    runs = runner.run_all(bdir, wd, shards, garbgen.render, timeout=1800 if tier == "quick" else 7200, extra=("-T", "60"))
     good = []
-    for r in runs:
+    pending = list(runs); rounds = 0
+    while pending:
+        r = pending.pop(0)
         if r["rc"] == 0:
             good.append(r); continue
         e = crashed_episode(r)
-        what = "time limit exceeded (hang)" if r["rc"] == -9 else "driver terminated abnormally rc=%s" % r["rc"]
+        # the episodes behind the one that ended the run have not been looked at yet: run them as a shard of their own
+        if e is not None and rounds < 200:
+            ids = [x["id"] for x in r["episodes"]]
+            rest = r["episodes"][ids.index(e["id"]) + 1:]
+            if rest:
+                rounds += 1
+                wd2 = os.path.join(wd, "rest%03d" % rounds); os.makedirs(wd2, exist_ok=True)
+                pending += runner.run_all(bdir, wd2, [rest], garbgen.render, timeout=1800 if tier == "quick" else 7200, extra=("-T", "60"))
+            # what was recorded up to the crash is still validated
+            done = r["episodes"][:ids.index(e["id"])]
+            if done:
+                try:
+                    lines = open(r["trace"]).read().splitlines()
+                    cut = max([i for i, l in enumerate(lines) if '"ev":"Reset"' in l] + [-1])
+                    open(r["trace"], "w").write("\n".join(lines[:cut + 1]) + "\n")
+                    good.append(dict(r, episodes=done, rc=0))
+                except OSError:
+                    pass
+        what = "time limit exceeded (hang)" if r["rc"] in (-9, 76) else "driver terminated abnormally rc=%s" % r["rc"]
         frames = " ".join(x.strip() for x in r["stderr"].splitlines() if "ERROR" in x or re.match(r"\s+#[0-4] ", x))[:500]
         rp = runner.save_replay(prop, "crash_%s" % (e["id"] if e else os.path.basename(r["script"])), (e["lines"] + ["reset %s" % e["id"]]) if e else open(r["script"]).read().splitlines())
         open(rp + ".stderr", "w").write(r["stderr"])
